@@ -1,5 +1,5 @@
 # C15 — ascii_dump / ascii_load round-trips every object in every internal state.
-from . import polylib
+from . import polylib, shapelib
 LEVEL = "model_checking"
 
 
@@ -14,3 +14,17 @@ def check(run):
              dict(maxlen=10, maxdim=3, ill=0, coef=2, num=(900 if q else 12000), opset=ops)]
     polylib.model_pass(run, ['PolyWorld1.cfg'])
     polylib.run_pool(run, "C15", plans, ("C15:",))
+    # boxes, BD shapes and octagons over exact and floating-point coefficients: dump / load as a state driver of the recipes (elements with
+    # fractions such as 1/16, infinite bounds, empty and universe elements) and in free walks; judged by ShapeTrace.tla (verdict C15:dump-load)
+    sops = shapelib.IMG_BASE + ["dumpload", "add_constraint", "intersection", "poly_hull", "affine_image", "add_dims_embed", "remove_higher", "unconstrain", "assign", "swap"]
+    splans = []
+    for dom, ty in (("box", "mpq"), ("box", "dbl"), ("bds", "flt"), ("bds", "mpq"), ("oct", "dbl"), ("oct", "mpz")):
+        splans.append(dict(dom=dom, ty=ty, maxlen=9, maxdim=2, ill=0, coef=2, num=(500 if q else 6000), opset=sops, recipe=True))
+        splans.append(dict(dom=dom, ty=ty, maxlen=8, maxdim=2, ill=0, coef=2, num=(200 if q else 3000), opset=["from_cs", "from_gs", "new", "dumpload", "dumpload", "min_constraints", "is_empty", "add_constraint", "poly_hull", "swap"]))
+    shapelib.run_shapes(run, "C15", splans)
+    # grids
+    from . import c05
+    c05.run_grid(run, [dict(maxlen=9, maxdim=2, ill=0, coef=2, num=(600 if q else 8000), recipe=True,
+                            opset=["from_cs", "from_gs", "from_cgs", "new", "dumpload", "add_congruence", "add_grid_generator", "intersection", "upper_bound", "affine_image", "is_empty", "congruences", "grid_generators", "min_congruences", "swap", "assign"]),
+                       dict(maxlen=8, maxdim=2, ill=0, coef=2, num=(300 if q else 4000),
+                            opset=["from_cs", "from_gs", "from_cgs", "new", "dumpload", "dumpload", "add_congruence", "add_grid_generator", "is_empty", "min_congruences", "swap"])], ("C15:",))
